@@ -271,8 +271,8 @@ impl Property for C03 {
     }
     fn cases(&self, tier: Tier) -> usize {
         match tier {
-            Tier::Quick => 8_000,
-            Tier::Thorough => 300_000,
+            Tier::Quick => 16_000,
+            Tier::Thorough => 400_000,
         }
     }
     fn strategy(&self, _tier: Tier) -> BoxedStrategy<TrajCase> {
